@@ -153,6 +153,12 @@ int main(int argc, char **argv)
 			goto out;
 	}
 out:
+	/* the differences are reported on stdout */
+	if (fflush(stdout) != 0 || ferror(stdout)) {
+		perror("stdout");
+		ret = -1;
+	}
+
 	if (ret < 0) {
 		status = 2;
 	} else if (ret > 0) {
